@@ -301,6 +301,12 @@ class CommandLineJob(Job):
         processbuilder.command.append(self.launcher.connector.resolve(scriptPath))
         processbuilder.stderr = Redirect.file(self.stderr)
         processbuilder.stdout = Redirect.file(self.stdout)
+
+        # The job is about to run again: the failure marker of a previous
+        # run must not make it look finished (e.g. to "jobs clean")
+        if self.failedpath.is_file():
+            self.failedpath.unlink()
+
         self._process = processbuilder.start(True)
 
         # Write the PID file atomically: another scheduler (or a restarted
